@@ -27,23 +27,8 @@ CONSTANTS
   DeadlineTicks = FALSE
   OneAtATime = FALSE
   SafePool = TRUE
-  Strict = TRUE
+  Strict = FALSE
 VIEW View
-INVARIANT TypeOK
-INVARIANT AtMostOnce
-INVARIANT WritesBounded
-INVARIANT ExactlyOnceAfterClose
-INVARIANT RoutedByID
-INVARIANT ConnOwnership
-INVARIANT GoroutinesGone
-INVARIANT OnSchedule
-INVARIANT StartErrNoCall
-INVARIANT DoNotStuck
-INVARIANT NoPanic
-INVARIANT IndicationsAreNotTransactions
-PROPERTY DoWaits
-PROPERTY QuietAfterEnd
-PROPERTY SilentAfterClose
-PROPERTY ClosedStartsRefused
-PROPERTY RtoSnapshot
 CHECK_DEADLOCK FALSE
+INVARIANT NoPanic
+PROPERTY DoWaits
